@@ -30,6 +30,14 @@ func NewWeekFromString(yyyyWww string) (Week, error) {
 	if week < 1 {
 		return Week{}, errors.New("INVALID_WEEK_PERIOD")
 	}
+	if dec28, dErr := klog.NewDate(year, 12, 28); dErr == nil {
+		// December 28th always lies in the last week of its year, so any higher
+		// week number doesn’t exist. (Stepping there might also exceed the range
+		// of representable dates.)
+		if _, lastWeek := dec28.WeekNumber(); week > lastWeek {
+			return Week{}, errors.New("INVALID_WEEK_PERIOD")
+		}
+	}
 	reference, err := func() (klog.Date, error) {
 		ref, yErr := klog.NewDate(year, 7, 1)
 		if yErr != nil {
